@@ -257,6 +257,7 @@ pub fn factors(code: &str, carriers: &[&str]) -> std::result::Result<Factors, er
     }
     match code {
         "SYM" => cte::wfactors_from_str(&sym_factor_text(carriers), no_user(), cte::CTE_USERWF),
+        "FULL" => cte::wfactors_from_str(&full_factor_text(carriers), no_user(), cte::CTE_USERWF),
         other => panic!("unknown factor set {}", other),
     }
 }
@@ -286,6 +287,34 @@ pub fn sym_factor_text(carriers: &[&str]) -> String {
     for cr in &carriers {
         line(cr, "RED", "SUMINISTRO", "A");
         if *cr == "ELECTRICIDAD" {
+            for dst in ["A_RED", "A_NEPB"] {
+                for step in ["A", "B"] {
+                    line(cr, "INSITU", dst, step);
+                }
+            }
+        }
+    }
+    s
+}
+
+/// A user factor file that spells out every factor the method can look up (grid supply, on-site and cogeneration
+/// supply and the four export factors of every source), each with its own variables: nothing is left to defaults, so a
+/// value that the implementation replaces, ignores or recomputes shows.
+pub fn full_factor_text(carriers: &[&str]) -> String {
+    let f = Dom::Range(0.0, 10.0);
+    let mut s = sym_factor_text(carriers);
+    let mut line = |cr: &str, src: &str, dst: &str, step: &str| {
+        let stem = format!("f_{}_{}_{}_{}", cr, src, dst, step);
+        s.push_str(&format!("{}, {}, {}, {}, {}, {}, {}\n", cr, src, dst, step, tok(&format!("{}_ren", stem), f), tok(&format!("{}_nren", stem), f), tok(&format!("{}_co2", stem), f)));
+    };
+    line("ELECTRICIDAD", "COGEN", "SUMINISTRO", "A");
+    for dst in ["A_RED", "A_NEPB"] {
+        for step in ["A", "B"] {
+            line("ELECTRICIDAD", "COGEN", dst, step);
+        }
+    }
+    for cr in ["EAMBIENTE", "TERMOSOLAR"] {
+        if carriers.contains(&cr) {
             for dst in ["A_RED", "A_NEPB"] {
                 for step in ["A", "B"] {
                     line(cr, "INSITU", dst, step);
